@@ -609,11 +609,12 @@ impl TraitDef {
                 async fn serve(self) -> (::std::option::Option<Target>, ::std::result::Result<(), ::remoc::rtc::ServeError>) {
                     let Self { mut target, mut req_rx, on_req_receive_error } = self;
                     let (err_tx, mut err_rx) = ::remoc::rtc::reply_error_channel();
+                    let mut reply_err = ::std::option::Option::None;
 
                     let target_opt = loop {
                         ::remoc::rtc::select! {
                             biased;
-                            Some(err) = err_rx.recv() => return (Some(target), Err(err.into())),
+                            Some(err) = err_rx.recv() => { reply_err.get_or_insert(err); },
                             req = req_rx.recv() => {
                                 match req {
                                     Ok(Some(::remoc::rtc::Req::Value(req))) => {
@@ -639,7 +640,10 @@ impl TraitDef {
                     };
 
                     drop(err_tx);
-                    let res = match err_rx.recv().await {
+                    while let Some(err) = err_rx.recv().await {
+                        reply_err.get_or_insert(err);
+                    }
+                    let res = match reply_err {
                         None => Ok(()),
                         Some(err) => Err(err.into()),
                     };
@@ -726,11 +730,12 @@ impl TraitDef {
                 async fn serve(self) -> ::std::result::Result<(), ::remoc::rtc::ServeError> {
                     let Self { target, mut req_rx, on_req_receive_error } = self;
                     let (err_tx, mut err_rx) = ::remoc::rtc::reply_error_channel();
+                    let mut reply_err = ::std::option::Option::None;
 
                     let ret = loop {
                         ::remoc::rtc::select! {
                             biased;
-                            Some(err) = err_rx.recv() => return Err(err.into()),
+                            Some(err) = err_rx.recv() => { reply_err.get_or_insert(err); },
                             req = req_rx.recv() => {
                                 match req {
                                     Ok(Some(::remoc::rtc::Req::Ref(req))) => {
@@ -746,7 +751,10 @@ impl TraitDef {
                     };
 
                     drop(err_tx);
-                    match err_rx.recv().await {
+                    while let Some(err) = err_rx.recv().await {
+                        reply_err.get_or_insert(err);
+                    }
+                    match reply_err {
                         None => Ok(ret),
                         Some(err) => Err(err.into()),
                     }
@@ -838,11 +846,12 @@ impl TraitDef {
                 async fn serve(self) -> ::std::result::Result<(), ::remoc::rtc::ServeError> {
                     let Self { target, mut req_rx, on_req_receive_error } = self;
                     let (err_tx, mut err_rx) = ::remoc::rtc::reply_error_channel();
+                    let mut reply_err = ::std::option::Option::None;
 
                     let ret = loop {
                         ::remoc::rtc::select! {
                             biased;
-                            Some(err) = err_rx.recv() => return Err(err.into()),
+                            Some(err) = err_rx.recv() => { reply_err.get_or_insert(err); },
                             req = req_rx.recv() => {
                                 match req {
                                     Ok(Some(::remoc::rtc::Req::Ref(req))) => {
@@ -861,7 +870,10 @@ impl TraitDef {
                     };
 
                     drop(err_tx);
-                    match err_rx.recv().await {
+                    while let Some(err) = err_rx.recv().await {
+                        reply_err.get_or_insert(err);
+                    }
+                    match reply_err {
                         None => Ok(ret),
                         Some(err) => Err(err.into()),
                     }
@@ -944,11 +956,12 @@ impl TraitDef {
                 async fn serve(self, spawn: bool) -> ::std::result::Result<(), ::remoc::rtc::ServeError> {
                     let Self { target, mut req_rx, on_req_receive_error } = self;
                     let (err_tx, mut err_rx) = ::remoc::rtc::reply_error_channel();
+                    let mut reply_err = ::std::option::Option::None;
 
                     let ret = loop {
                         ::remoc::rtc::select! {
                             biased;
-                            Some(err) = err_rx.recv() => return Err(err.into()),
+                            Some(err) = err_rx.recv() => { reply_err.get_or_insert(err); },
                             req = req_rx.recv() => {
                                 match req {
                                     Ok(Some(::remoc::rtc::Req::Ref(req))) => {
@@ -973,7 +986,10 @@ impl TraitDef {
                     };
 
                     drop(err_tx);
-                    match err_rx.recv().await {
+                    while let Some(err) = err_rx.recv().await {
+                        reply_err.get_or_insert(err);
+                    }
+                    match reply_err {
                         None => Ok(ret),
                         Some(err) => Err(err.into()),
                     }
@@ -1062,11 +1078,12 @@ impl TraitDef {
                 async fn serve(self, spawn: bool) -> ::std::result::Result<(), ::remoc::rtc::ServeError> {
                     let Self { target, mut req_rx, on_req_receive_error } = self;
                     let (err_tx, mut err_rx) = ::remoc::rtc::reply_error_channel();
+                    let mut reply_err = ::std::option::Option::None;
 
                     let ret = loop {
                         ::remoc::rtc::select! {
                             biased;
-                            Some(err) = err_rx.recv() => return Err(err.into()),
+                            Some(err) = err_rx.recv() => { reply_err.get_or_insert(err); },
                             req = req_rx.recv() => {
                                 match req {
                                     Ok(Some(::remoc::rtc::Req::Ref(req))) => {
@@ -1096,7 +1113,10 @@ impl TraitDef {
                     };
 
                     drop(err_tx);
-                    match err_rx.recv().await {
+                    while let Some(err) = err_rx.recv().await {
+                        reply_err.get_or_insert(err);
+                    }
+                    match reply_err {
                         None => Ok(ret),
                         Some(err) => Err(err.into()),
                     }
